@@ -620,6 +620,104 @@ func runGaterConcurrent(k *mon.Case, sub int) {
 // ---------------------------------------------------------------------------------------
 // direct tier: rate limiter object on a Peer without sockets
 
+// runGaterRenew: penalties that hit an IP whose ban has just run out but whose entry the sweeper
+// has not removed yet. On such an entry a penalty brings the total to >= 100 again (AddPenalty
+// reports it), so the IP is banned for a further full period from that moment: every gate must
+// refuse it while unix(after the gate call) <= unix(before the penalty) + expiration. Many IPs
+// are banned within one second and penalised again from several goroutines right after the
+// second in which their bans run out, while the sweeper is at work on the same entries.
+func runGaterRenew(k *mon.Case) {
+	r := k.R
+	const expS = 1
+	sw := []time.Duration{5, 20, 40}[r.Intn(3)] * time.Millisecond
+	g, err := p2p.VerifNewGater(p2pnet.NewRecLogger("gater", nil), expS*time.Second, sw)
+	if err != nil {
+		panic(err)
+	}
+	gr := &gaterRun{k: k, g: g, exp: expS}
+	ctx, cancel := context.WithCancel(context.Background())
+	var swg sync.WaitGroup
+	defer func() { cancel(); swg.Wait() }()
+	g.Start(ctx, &swg)
+	nIP := 600 + r.Intn(1800)
+	forms := make([]ipForm, nIP)
+	for i := range forms {
+		forms[i] = mkForm(fmt.Sprintf("10.%d.%d.%d", 1+r.Intn(3), i/250, 1+i%250), r)
+	}
+	// ban them all inside one second
+	for t := unix(); unix() == t; {
+		time.Sleep(time.Millisecond)
+	}
+	u0 := unix()
+	for _, f := range forms {
+		if sc, err := g.AddPenalty(ma.StringCast(f.Addr), 100); err != nil || sc < 100 {
+			k.Inconclusive("renew:initial-ban-failed")
+			return
+		}
+	}
+	u1 := unix()
+	if u1 != u0 {
+		k.Count("renew_bans_spread_over_two_seconds", 1)
+	}
+	workers := 2 + r.Intn(7)
+	var renewed, fresh, bad atomic.Int64
+	var mu sync.Mutex
+	var wit map[string]any
+	var wg sync.WaitGroup
+	for w := 0; w < workers; w++ {
+		w := w
+		wg.Add(1)
+		go func() {
+			defer wg.Done()
+			// the bans carry expiration <= u1+expS: they have run out once unix() > u1+expS
+			for unix() <= u1+expS {
+				time.Sleep(200 * time.Microsecond)
+			}
+			for i := w; i < nIP; i += workers {
+				f := forms[i]
+				b0 := unix()
+				sc, err := g.AddPenalty(ma.StringCast(f.Addr), 1)
+				if err != nil {
+					continue
+				}
+				if sc < 100 {
+					fresh.Add(1) // the entry had been swept already: a clean score, nothing to enforce
+					continue
+				}
+				renewed.Add(1)
+				gs := gr.intercept(f)
+				a1 := unix()
+				if (gs.Dial || gs.Accept || gs.SecuredIn) && a1 <= b0+expS {
+					bad.Add(1)
+					mu.Lock()
+					if wit == nil {
+						wit = map[string]any{"ip": f.Canon, "multiaddr": f.Addr, "total_reported_by_penalty": sc, "unix_before_penalty": b0, "unix_after_gates": a1, "expiration_s": expS, "gates_open": gateNames(gs), "sweep_interval_ms": sw.Milliseconds(), "ips": nIP, "workers": workers}
+					}
+					mu.Unlock()
+				}
+			}
+		}()
+	}
+	k.Watch("gater renew", watchdog, wg.Wait)
+	k.Count("renew_penalties_on_expired_unswept_entries", int(renewed.Load()))
+	k.Count("renew_penalties_on_swept_entries", int(fresh.Load()))
+	if renewed.Load() > 0 {
+		k.Nontrivial(fmt.Sprintf("renew/sweep=%dms/workers=%d/renewed>=%d", sw.Milliseconds(), workers, bucket(int(renewed.Load()))))
+	}
+	if bad.Load() > 0 {
+		wit["occurrences"] = bad.Load()
+		k.Violation("renewed-ban-not-enforced:penalty-on-expired-unswept-entry", "a penalty brought an IP's total to >= 100 (its earlier ban had run out, the entry was still there), yet the gates admitted the IP within the new ban period", wit)
+	}
+}
+
+func bucket(n int) int {
+	b := 1
+	for b*4 <= n {
+		b *= 4
+	}
+	return b
+}
+
 func runRateLimitDirect(k *mon.Case) {
 	r := k.R
 	ctx, cancel := context.WithCancel(context.Background())
@@ -1084,6 +1182,9 @@ func runNetBan(k *mon.Case) {
 	switch {
 	case strings.HasPrefix(ns.trigger, "malformed-"):
 		delivered = func() bool { return ns.V.Logger.Count("decode-error") > 0 }
+	case ns.trigger == "unknown-procedure-response":
+		// either line shows that onResponse worked on this envelope (whichever check it ran first)
+		delivered = func() bool { return ns.V.Logger.Count("unregistered") > 0 || ns.V.Logger.Count("unknown-id") > 0 }
 	case strings.HasPrefix(ns.trigger, "unknown-procedure-"):
 		delivered = func() bool { return ns.V.Logger.Count("unregistered") > 0 }
 	case strings.HasPrefix(ns.trigger, "invalid-sync-request"):
@@ -1463,6 +1564,7 @@ func main() {
 			}
 			k.Eval(7)
 		})
+		c.Cases("gater-renew", c.N(32, 480), runGaterRenew)
 		c.Cases("ratelimit-direct", c.N(32, 800), runRateLimitDirect)
 		c.Cases("net-legal", c.N(8, 200), runNetLegal)
 		c.Cases("net-blacklist", c.N(4, 100), runNetBlacklist)
